@@ -38,7 +38,8 @@ package twofactor
 //@   ensures no_panic: !panics
 //@
 //@ func (EmailVerify).Wrap#1
-//@   property C13
+//@   property C13 C17
+//@   ensures[C17] no_secret_leak: secrets_clean
 //@   -- with e-mail authorisation required the wrapped route only runs for a session that
 //@   -- holds the authorisation mark
 //@   ensures wrap_blocks: each Next.ServeHTTP(_, _, _) =>
